@@ -13,7 +13,8 @@ LEVEL = "proof"
 LEVEL_TEXT = ("Coq theorems for all rational sequences: the modelled index equals (sum|successive changes| - (max-min))/(N-2), is non-negative, "
               "zero exactly for monotone sequences, invariant under shift/negation/reversal, scales with |c|, is NaN iff a NaN is present; the "
               "angular range lies in [0,180]; the code-faithful model of the sector routine equals 360 minus the largest circular gap and is "
-              "rotation invariant; proportion-exceeding is the fraction of valid indices >= the threshold. The model (reductions along the "
+              "rotation invariant; proportion-exceeding is the fraction of valid indices >= the threshold for every threshold that is not NaN "
+              "(1 at -inf, 0 at +inf). The model (reductions along the "
               "sampling dimension, selections, sector routine, discretisation) is a hand model tied to flip_flop_impl.py by a correspondence "
               "check on every run; angular_difference is regenerated from functions.py (site S1). Proof is the right level because the "
               "deciding inputs are ties (equal gaps, exactly-180 gaps, antipodal pairs, duplicates) that samples seldom hit.")
@@ -24,11 +25,12 @@ SITES = ["S1", "C18.exceed"]
 RULE = ("sequences of length 1-8 on the dyadic grid k/4 (|k|<=32) with forced ties, monotone runs and NaN slots; angle sets on a 22.5-degree "
         "grid shifted beyond +-360 with antipodal pairs, duplicates and dyadic rotations (non-multiples of 10 degrees); arrays with 1-2 extra "
         "dims stored in shuffled coordinate order; selections by coordinate label (repeats, absent labels); thresholds including exact index "
-        "values; linear series, arrays, selections and proportion-exceeding inputs (data and thresholds) multiplied by 2**e, -40 <= e <= 40 and a few "
+        "values and the catch-all bin edges -inf / +inf (also repeated, which is refused); linear series, arrays, selections and proportion-exceeding inputs (data and thresholds) multiplied by 2**e, -40 <= e <= 40 and a few "
         "exponents up to +-200 (exact in binary64), plus factors that are not powers of two from 1e-12 to 1e12, compared relative to the "
         "magnitude of the data with no absolute floor. A case is distinct by the hash of (function, inputs, options) and non-trivial when at least one output value is finite")
 ASSUMPTIONS = ["labels along the sampling dimension are unique integers (xarray .sel on a unique index)",
-               "inf inputs are outside the property's domain for the theorems (the model and the tie do cover them)"]
+               "infinite DATA values are outside the property's domain for the theorems (the model and the tie do cover them); infinite THRESHOLDS are "
+               "inside (C18_proportion_exceeding_any_threshold)"]
 TRUSTED = ["hand model of xarray shift / sum(skipna) / max,min(skipna=False) / sel / mean used by flip_flop_impl.py (validated by correspondence)"]
 
 # counters every complete run must have incremented (one per predicate family / input class; core.run_check reports a
